@@ -186,6 +186,27 @@ func getCatalogue() *catalogue {
 				c.bases[t1.TypeUrl] = append(c.bases[t1.TypeUrl], t1)
 			}
 		}
+		// RSA templates whose modulus size is not a multiple of 8 bits (keys from rsaPool "odd-bits")
+		for u, bs := range c.bases {
+			if !isRSAURL(u) || strings.Contains(u, "Composite") || len(bs) == 0 {
+				continue
+			}
+			for _, bits := range []uint32{2049, 2052, 3073} {
+				for _, pt := range []tinkpb.OutputPrefixType{tinkpb.OutputPrefixType_TINK, tinkpb.OutputPrefixType_RAW} {
+					m := formatTypeOfURL(u).New()
+					if proto.Unmarshal(bs[0].Value, m.Interface()) != nil {
+						continue
+					}
+					if mm, fd := fieldByPath(m, "modulus_size_in_bits"); mm != nil {
+						mm.Set(fd, protoreflect.ValueOfUint32(bits))
+						t := &tinkpb.KeyTemplate{TypeUrl: u, Value: detMarshal(m.Interface()), OutputPrefixType: pt}
+						if t1, _, ok := canonTemplate(t); ok {
+							c.bases[u] = append(c.bases[u], t1)
+						}
+					}
+				}
+			}
+		}
 		// types without template functions: search the format space by reflection
 		r := hx.NewRng(0xC12)
 		for _, u := range c.urls {
@@ -471,6 +492,20 @@ func newKey(r *hx.Rng, t *tinkpb.KeyTemplate, p key.Parameters, id uint32) (key.
 		}
 		k, err := protoserialization.ParseKey(s)
 		if err != nil {
+			// a well-formed key built by hand from valid primes that the implementation refuses to parse:
+			// not a reason to drop the case - the line goes to the model, which will disagree
+			// (only for templates whose parameters are ordinary: the parameters parser accepts RSA-SSA-PSS salt
+			// lengths - 0, or larger than the modulus allows - with which the key constructor refuses every key;
+			// those refusals are validity rules of the key, not of its serialization)
+			if saneRSATemplate(t) {
+				why := strings.Map(func(c rune) rune {
+					if c == '|' || c == ';' || c < 32 || c > 126 {
+						return '/'
+					}
+					return c
+				}, err.Error())
+				poolUnparsed = append(poolUnparsed, keyLine("pool-unparsed:"+why, s))
+			}
 			return nil, false
 		}
 		return k, true
@@ -483,6 +518,23 @@ func newKey(r *hx.Rng, t *tinkpb.KeyTemplate, p key.Parameters, id uint32) (key.
 	}
 	return k, true
 }
+
+// saneRSATemplate: no PSS salt, or one of 1..64 bytes.
+func saneRSATemplate(t *tinkpb.KeyTemplate) bool {
+	m := formatTypeOfURL(t.TypeUrl).New()
+	if proto.Unmarshal(t.Value, m.Interface()) != nil {
+		return false
+	}
+	if pm, fd := fieldByPath(m, "params.salt_length"); pm != nil {
+		sl := pm.Get(fd).Int()
+		return sl >= 1 && sl <= 64
+	}
+	return true
+}
+
+// poolUnparsed: K lines of pool-built RSA keys the implementation's parser refused (see newKey);
+// drained into the case list by the generator.
+var poolUnparsed []string
 
 // ---- case lines ---------------------------------------------------------------
 
@@ -1059,6 +1111,16 @@ func gen(r *hx.Rng, n int, tier string) []string {
 				}
 			}
 		}
+	}
+	// keys the implementation's parser refused although they are valid (at most a handful; they replace the
+	// last lines so that the case count stays n)
+	if len(poolUnparsed) > 0 {
+		k := len(poolUnparsed)
+		if k > 20 {
+			k = 20
+		}
+		copy(lines[n-k:n], poolUnparsed[:k])
+		poolUnparsed = nil
 	}
 	return lines[:n]
 }
